@@ -74,8 +74,10 @@ fn program_family(rep: &mut Report, viols: &Viols, machinery: &Mutex<Vec<String>
                 let p = &progs[pi];
                 for (oi, &ord) in orders.iter().enumerate() {
                     let Some(text) = p.text(ord) else { continue };
-                    // merge_modules variants are independent of the declaration order: first order only
-                    let out = eval_case(&prop, &text, oi == 0, thorough);
+                    // merge_modules variants are independent of the declaration order (first order only)
+                    // and of loop contexts (quick tier: not repeated for the loop families)
+                    let do_modules = oi == 0 && (thorough || !fam.name.contains("loop"));
+                    let out = eval_case(&prop, &text, do_modules, thorough);
                     if let Some(m) = &out.machinery {
                         machinery.lock().unwrap().push(m.clone());
                     }
@@ -102,7 +104,7 @@ fn program_family(rep: &mut Report, viols: &Viols, machinery: &Mutex<Vec<String>
                             key,
                             what,
                             size: p.kinds.len() * 1000 + p.refs.len() * 100 + text.len(),
-                            case: json!({"kind": "program", "property": prop, "text": text, "modules": oi == 0, "thorough": thorough,
+                            case: json!({"kind": "program", "property": prop, "text": text, "modules": do_modules, "thorough": thorough,
                                          "family": fam.name, "prog": p.to_json(), "order": [ord.node_rev, ord.edge_rev]}),
                         });
                     }
